@@ -199,12 +199,20 @@ def region_must(body, entries, region, through):
     return True, None
 
 
-def owner_fn(prog, path):
-    """Outermost non-closure ancestor of a body path."""
+def owner_fn(prog, path, _depth=0):
+    """Outermost non-closure ancestor of a body path.  A helper function that is not part of the frozen function set
+    (tables/known_functions.json) and has a single call site is attributed to the function that calls it (it is inlined
+    there by Program.body): who-may-call / who-may-write rules stay silent on an "extract helper" refactoring."""
     b = prog.bodies.get(path)
     while b is not None and b.parent and b.parent in prog.bodies:
         b = prog.bodies[b.parent]
-    return b.path if b is not None else path
+    if b is None:
+        return path
+    if _depth < 3 and b.kind in ('fn', 'method') and b.path not in prog.known_functions():
+        sites = sorted(set((x.path, bi) for x, bi in prog.callers_of(b.path) if '::tests::' not in x.path))
+        if len(sites) == 1 and not prog.fn_refs().get(b.path):
+            return owner_fn(prog, sites[0][0], _depth + 1)
+    return b.path
 
 
 def call_sites(prog, callee):
